@@ -1,13 +1,13 @@
 T = '''# {pid} — {title}  (fake_trx world property; shared machinery in lib/worldcheck.py)
 from lib import vf, worldcheck as wc
-from props import trxcon_part
+from props import trxcon_part, randburst_part
 
 ID = "{pid}"
 LEVEL = "proof"
-LEAN_MODULES = ["OsmoVerif.Props.{pid}"] + (["OsmoVerif.Props.Trxcon"] if ID == "C05" else [])
-LEAN_MODEL_MODULES = wc.LEAN_MODEL_MODULES + (trxcon_part.LEAN_MODEL_MODULES if ID == "C05" else [])
-DRIVER_MODULES = wc.DRIVER_MODULES + (["TrxconIf"] if ID == "C05" else [])
-ASSUMPTIONS = wc.ASSUMPTIONS + {extra_assumptions!r}
+LEAN_MODULES = ["OsmoVerif.Props.{pid}"] + (["OsmoVerif.Props.Trxcon"] if ID == "C05" else []) + (randburst_part.LEAN_MODULES if ID == "C10" else [])
+LEAN_MODEL_MODULES = wc.LEAN_MODEL_MODULES + (trxcon_part.LEAN_MODEL_MODULES if ID == "C05" else []) + (randburst_part.LEAN_MODEL_MODULES if ID == "C10" else [])
+DRIVER_MODULES = wc.DRIVER_MODULES + (["TrxconIf"] if ID == "C05" else []) + (randburst_part.DRIVER_MODULES if ID == "C10" else [])
+ASSUMPTIONS = wc.ASSUMPTIONS + {extra_assumptions!r} + (randburst_part.ASSUMPTIONS if ID == "C10" else [])
 MANIFEST = {{
     "text": {text!r},
     "note": {note!r},
@@ -28,6 +28,8 @@ def correspond(run, corr):
     wc.correspond(run, corr, CORR_PROFILES, {nq}, {nt})
     if ID == "C05":
         trxcon_part.correspond(run, corr, parts=("cmd", "rsp"))
+    if ID == "C10":
+        randburst_part.correspond(run, corr, wc.train(run))
 
 
 def search(run, corr, deep):
@@ -39,6 +41,9 @@ def search(run, corr, deep):
         # trxcon side: real trx_if.c command emission / response parser, and the cross run with the real toolkit
         found += trxcon_part.oracle(run, corr, deep, parts=("cmd", "rsp"))
         found += wc.c05_cross(run, corr, deep)
+    if ID == "C10":
+        # the burst generators of rand_burst_gen.py against the TS 45.002 burst layouts
+        found += randburst_part.oracle(run, corr, deep, wc.train(run))
     return found
 
 
@@ -51,13 +56,17 @@ def replay(run, path):
         still, text = trxcon_part.replay(run, w)
         print(text)
         bad += bool(still)
+    for w in [v["witness"] for v in rp.get("violations", []) if (v.get("witness") or {{}}).get("kind") == "burst-generator"]:
+        still, text = randburst_part.replay(run, w, wc.train(run))
+        print(text)
+        bad += bool(still)
     rc = wc.replay(run, path, ID)
     if bad:
         print("VIOLATION property=%s replay=%s" % (ID, path))
     return 1 if (bad or rc) else 0
 '''
 NOTE = ("trusted: Lean kernel (+propext, Classical.choice, Quot.sound); translators gen/world.py, gen/py_unicode.py, gen/trxd_consts.py, gen/hopping.py; "
-        "the world harness (in-memory sockets, inert clock thread, deterministic randint) and the property reference lib/worldspec.py; "
+        "the world harness (in-memory sockets, the real CLCKGen._worker loop in lock step in its own OS thread, deterministic randint) and the property reference lib/worldspec.py; "
         "modelled not verified: UDP/select, OS scheduling below whole operations, time.sleep, logging")
 TECH = "Lean 4 proof over the executable world model; differential correspondence of whole histories against the real FakeTRX objects; black-box property reference as failing-input oracle"
 P = {
@@ -66,7 +75,7 @@ P = {
  "C02": dict(title="Virtual Um routing", corr=["traffic","mixed","drop"], orc=["traffic","drop","mixed","wrap"],
    text="Lean theorems: forwardMsg calls handleDataMsg exactly once for each running other transceiver whose Rx frequency in FN (fixed or hopping per TS 45.002) equals the sender's Tx frequency, for no other; datagram delivered iff recipient and not suppressed and metadata valid; nothing to sender/idle/detuned; model tied to the real BurstForwarder/FakeTRX by whole-history correspondence; oracle judges the real routing decisions (traced handle_data_msg calls) against an independent reference incl. an independent hopping implementation"),
  "C10": dict(title="Forwarded bursts: bits and metadata", corr=["radio","traffic","mixed"], orc=["radio","traffic","mixed"],
-   text="Lean theorems on handleDataMsg: soft bits 127/-127 per hard bit, FN/TN preserved, recipient's header version with legacy padding on v0, RSSI formula or FAKE_RSSI window, ToA256 window minus 256*TA, C/I window, modulation by burst length, TSC detection on NB/SB/AB layouts over the regenerated training-sequence table; correspondence of every emitted datagram; oracle parses the delivered datagrams per the TRXD layout and checks them against the reference windows"),
+   text="Lean theorems on handleDataMsg: soft bits 127/-127 per hard bit, FN/TN preserved, recipient's header version with legacy padding on v0, RSSI formula or FAKE_RSSI window, ToA256 window minus 256*TA, C/I window, modulation by burst length, TSC detection on NB/SB/AB layouts over the regenerated training-sequence table; the burst generators of rand_burst_gen.py (gen_nb/gen_sb/gen_ab for every random stream and given or drawn TSC, gen_fb, the dummy-burst table) proved to build exactly those layouts (Props/C10Burst) and compared with the real RandBurstGen under a scripted random source; correspondence of every emitted datagram; oracle parses the delivered datagrams per the TRXD layout and checks them against the reference windows"),
  "C18": dict(title="Burst-loss simulation", corr=["traffic","mixed"], orc=["drop","traffic"],
    text="Lean theorems: after FAKE_DROP n p exactly the first n unmuted bursts with fn % p = 0 are suppressed (induction over any burst stream), mute suppresses all and leaves the counter, one NOPE (no bits, -110/0/-30) per suppressed burst on v1 and nothing on v0, bad arguments rejected without change; correspondence incl. drop counters in the final state; oracle counts suppressed bursts / NOPEs on the real code"),
  "C05": dict(title="TRXC command/response", corr=["ctrl","mixed","fuzz"], orc=["ctrl","mixed"],
